@@ -64,7 +64,7 @@ func C15(c *Ctx) {
 			n := 0
 			for _, root := range w.Roots["INITGEN:"+m] {
 				for f := range w.Reachable([]*ssa.Function{root}) {
-					if !strings.Contains(fn(f), "InitGenesis") {
+					if !genesisFuncs(c, "INITGEN", m)[f] {
 						continue
 					}
 					is := callReaching(c, f, func(e ir.Effect) bool { return e.Kind == "StoreWrite" && e.Section == sec })
@@ -91,7 +91,7 @@ func C15(c *Ctx) {
 			// converse: every imported order with that status gets its queue entry before the next iteration
 			for _, root := range w.Roots["INITGEN:"+m] {
 				for f := range w.Reachable([]*ssa.Function{root}) {
-					if !strings.Contains(fn(f), "InitGenesis") || ir.ModuleOf(f) != m {
+					if !genesisFuncs(c, "INITGEN", m)[f] || ir.ModuleOf(f) != m {
 						continue
 					}
 					isQ := callReaching(c, f, func(e ir.Effect) bool { return e.Kind == "StoreWrite" && e.Section == sec })
@@ -106,10 +106,15 @@ func C15(c *Ctx) {
 						}
 						args := call.Common().Args
 						stored := w.ExprOf(args[len(args)-1])
+						isStatusOfStored := func(x *ir.Expr) bool {
+							return x.Op == "field" && x.Name == "Status" && (x.Args[0].String() == stored.String() || stored.Op == "struct")
+						}
 						otherStatus := w.EstablishedEdges(f, func(p ir.Pred) bool {
-							return cmpIs(p, "!=", func(x *ir.Expr) bool {
-								return x.Op == "field" && x.Name == "Status" && (x.Args[0].String() == stored.String() || stored.Op == "struct")
-							}, func(y *ir.Expr) bool { return y.Op == "const" && y.Name == status })
+							// the status differs from the queue's status: tested as != status, or as == a different status constant (switch form)
+							return cmpIs(p, "!=", isStatusOfStored, func(y *ir.Expr) bool { return y.Op == "const" && y.Name == status }) ||
+								cmpIs(p, "==", isStatusOfStored, func(y *ir.Expr) bool {
+									return y.Op == "const" && y.Name != status && strings.Contains(y.Name, "types.Status")
+								})
 						}, 0)
 						bad := ir.AfterReachesBackEdgeWithoutCut(f, pw, isQ, otherStatus)
 						r.Require(len(bad) == 0, "A7.derived-queues", "every|"+sec, pos(c, pw), "every imported order with Status == "+status+" gets its queue entry (no imported order of that status is skipped)", "the next iteration is reachable for such an order without the queue write")
@@ -202,8 +207,8 @@ func literalCompleteness(c *Ctx, m string) {
 			return true
 		})
 	}
-	fl := map[string]int{"enterprise": 3, "wrkchain": 4, "beacon": 4, "stream": 1}
-	r.Floor("struct literals on genesis routes of "+m, n, fl[m])
+	// (a copy written as a plain assignment has no literal to check: its fields are covered by the import-/export-fields rules)
+	r.Floor("struct literals on genesis routes of "+m, n, 1)
 }
 
 // importFields: what import stores comes from the like-named field of the genesis input.
@@ -252,7 +257,7 @@ func importErrors(c *Ctx, m string) {
 	n := 0
 	for _, root := range w.Roots["INITGEN:"+m] {
 		for f := range w.Reachable([]*ssa.Function{root}) {
-			if ir.ModuleOf(f) != m || !strings.Contains(fn(f), "InitGenesis") {
+			if ir.ModuleOf(f) != m || !genesisFuncs(c, "INITGEN", m)[f] {
 				continue
 			}
 			is := callReaching(c, f, func(e ir.Effect) bool { return e.Kind == "StoreWrite" })
@@ -324,7 +329,7 @@ func exportCountersRule(c *Ctx, rule string, only map[string]bool) {
 		n := 0
 		for _, root := range w.Roots["EXPORTGEN:"+rm.M] {
 			for f := range w.Reachable([]*ssa.Function{root}) {
-				if ir.ModuleOf(f) != rm.M || !strings.Contains(fn(f), "ExportGenesis") {
+				if ir.ModuleOf(f) != rm.M || !genesisFuncs(c, "EXPORTGEN", rm.M)[f] {
 					continue
 				}
 				// find struct expressions of the registration type appended to the export list
@@ -349,9 +354,13 @@ func exportCountersRule(c *Ctx, rule string, only map[string]bool) {
 						if fname != rm.Count && fname != rm.Lowest && strings.HasSuffix(ptrElem(fa.X.Type()).String(), "/x/"+rm.M+"/types."+regTypeName(rm)) {
 							// every other exported registration field is the stored registration's like-named field
 							n++
-							ok := v.Op == "field" && v.Name == fname && v.Args[0].Op == "elem" && w.Expand(v.Args[0].Args[0], 1).Any(func(x *ir.Expr) bool {
-								return x.Op == "call" && x.Callee != nil && reachesEffect(c, x.Callee, func(e ir.Effect) bool { return e.Kind == "StoreIter" && e.Section == rm.SecReg })
-							})
+							isStored := func(v *ir.Expr) bool {
+								return v.Op == "field" && v.Name == fname && v.Args[0].Op == "elem" && w.Expand(v.Args[0].Args[0], 1).Any(func(x *ir.Expr) bool {
+									return x.Op == "call" && x.Callee != nil && reachesEffect(c, x.Callee, func(e ir.Effect) bool { return e.Kind == "StoreIter" && e.Section == rm.SecReg })
+								})
+							}
+							// the per-registration step may be a helper handed the registration: judge the value as its callers instantiate it
+							ok := isStored(v) || liftAll(c, f, v, isStored)
 							rl := "A7.export-fields"
 							if rule != "" {
 								rl = rule
